@@ -301,7 +301,7 @@ func fieldOf(t types.Type, idx int) *types.Var {
 	if !ok || idx >= st.NumFields() {
 		return nil
 	}
-	return st.Field(idx)
+	return st.Field(idx).Origin() // fields of instantiated generic structs map to their declaration
 }
 
 // apString renders an access path canonically ("hs.dh.remoteEphemeral").
